@@ -24,7 +24,10 @@ TRUSTED = [
     "issue sequence, exit status)",
     "file system abstractions: os.walk yields the same order on two walks of an unchanged tree; realpath is the "
     "identity (no symlinks); a directory and a file never share a path (hypothesis fs_ok of the theorems); "
-    "sidecar_dir_dict[dir] modelled as the sub-list of sidecar_dict lying in dir",
+    "sidecar_dir_dict[dir] modelled as the sub-list of sidecar_dict lying in dir; the group is computed on paths "
+    "relative to the dataset root: that the real (absolute) paths give the same walk, applicability test and chain "
+    "whatever the root is called is proved (C16_os_walk_is_walk, C16_is_sidecar_for_root_independent, "
+    "C16_chain_root_independent) and exercised by generating the root's own name and the components above it",
     "str.lower() modelled for ASCII only (generated names are ASCII plus caseless white space); Base/Str.v isspace "
     "table compared with CPython for every code point used by the generators",
     "the sidecar and tabular validators are parameters of the model (properties C07/C08); a JSON document that is "
@@ -33,15 +36,25 @@ TRUSTED = [
 ASSUMPTIONS = [
     "the theorems quantify over all directory trees, all file names and all sidecar contents of the model; the "
     "at-most-one-applicable-sidecar-per-directory hypothesis is the property's own",
-    "VERIF_C16_FIXED=1 (default): the tree under test has the fix: commit for C16-F1; C16_merged_is_fold and "
-    "C16_dataset_issues are proved in full for the repaired constructor; the C16_before_fix_* theorems record the "
-    "repaired defect (VERIF_C16_FIXED=0 checks an unpatched tree against that model and accepts the C16-F1 class)",
+    "VERIF_C16_FIXED=1 (default) = /repo as it is (fix commit be9bad3 repaired C16-F1); C16_merged_is_fold is the "
+    "code-relative form (fold along the chain the code computes, no side condition), C16_merged_is_fold_applicable the "
+    "declarative clause (merge of exactly the applicable sidecars by depth, under data_file and the statement's "
+    "at-most-one hypothesis); the C16_before_fix_* theorems are only the record of the behaviour before be9bad3 "
+    "(VERIF_C16_FIXED=0 checks an old tree against that record and accepts the C16-F1 class)",
+    "C16_dataset_issues, C16_every_sidecar_validated / C16_every_data_file_validated / C16_dataset_issue_origin and "
+    "C16_cli_exit_iff hold essentially by construction of the model (the driver is transcribed as concatenating "
+    "loops and int(bool(list))); the tie of that structure to the code is tested: issue sequence and exit status "
+    "against per-file validation, for merged sidecars of every entry shape (no HED key at all, HED misplaced inside "
+    "Levels, metadata only, empty and non-object entries, the empty sidecar)",
+    "which of several applicable sidecars in ONE directory is taken (a BIDS violation outside the statement) is not a "
+    "theorem beyond C16_chain_only_applicable / C16_chain_one_per_depth; it is compared with the model by testing",
     "issue equality and the CLI exit status are checked on the implementation (testing) against per-file validation "
     "with the specification's merged sidecar; in the model they are structural",
 ]
 
-# 1 = the tree under test has the fix: commit for C16-F1 (data file gets the merge of ITS OWN chain): the repaired
-# model is used and the oracle demands the full statement; 0 = the constructor before that commit.
+# 1 = the tree under test has fix commit be9bad3, which repaired C16-F1 (data file gets the merge of ITS OWN chain;
+# /repo has it): the model of the code as it is now is used and the oracle demands the full statement;
+# 0 = the behaviour before commit be9bad3 (only for checking an old tree against the record of the repaired defect).
 FIXED = int(os.environ.get("VERIF_C16_FIXED", "1"))
 EXCLUDED_NAMES = ["sourcedata", "derivatives", "code", "stimuli", "phenotype"]
 COLS = ["a", "b", "c", "trial_type"]
@@ -147,11 +160,14 @@ def run_cli(root, cfw, sub=False):
 def impl_one(case):
     """Observable behaviour of the implementation on one directory tree."""
     base, idx, tree, cfw, want_sub = case["base"], case["idx"], case["tree"], case["cfw"], case.get("sub", False)
-    root = os.path.join(base, f"ds{idx}")
+    top = os.path.join(base, f"ds{idx}")
+    # the dataset root's own name and the components above it are inputs: exclusion applies BELOW the root only
+    root = os.path.join(top, *case.get("rootpath", ["ds"]))
     r = {"idx": idx}
     try:
         write_tree(root, tree)
         root = os.path.realpath(root)
+        root_arg = root + (os.sep if case.get("trailing") else "")
         # the listing order the implementation will see
         walk = []
         for cur, dirs, files in os.walk(root, topdown=True):
@@ -162,7 +178,7 @@ def impl_one(case):
         r["excl"] = list(inspect.signature(BidsDataset.__init__).parameters["exclude_dirs"].default)
         r["types"] = list(inspect.signature(BidsDataset.__init__).parameters["tabular_types"].default)
         try:
-            ds = BidsDataset(root, schema=schema())
+            ds = BidsDataset(root_arg, schema=schema())
         except Exception as e:  # noqa
             r["exn"] = type(e).__name__
             ds = None
@@ -179,7 +195,7 @@ def impl_one(case):
                 r["issues"] = [canon_issue(i) for i in ds.validate(check_for_warnings=cfw)]
             except Exception as e:  # noqa
                 r["issues_exn"] = type(e).__name__ + ":" + str(e)[:100]
-        r["cli"] = run_cli(root, cfw, sub=want_sub)[0]
+        r["cli"] = run_cli(root_arg, cfw, sub=want_sub)[0]
         # the statement's right-hand side (computed here because the files are on disk now):
         #  "spec":  per-file validation with the specification's chains (supplied by the caller);
         #  "model": per-file validation along the chains the implementation reported, combined the way the
@@ -198,7 +214,7 @@ def impl_one(case):
         import traceback
         r["harness_exn"] = traceback.format_exc()[-1500:]
     finally:
-        shutil.rmtree(root, ignore_errors=True)
+        shutil.rmtree(top, ignore_errors=True)
     return r
 
 
@@ -442,24 +458,78 @@ EXN_MAP = {"HedFileError": "HedFileError", "KeyError": "KeyError", "TypeError": 
 
 # ---------------------------------------------------------------- generators
 
+def shape_entry(shape, tag, c):
+    """One column entry of a sidecar in one of the shapes the sidecar validator has a rule (or silence) for.
+    Every entry names the file it comes from (tag), so that a merge shows which file supplied it."""
+    return {
+        "cat": {"HED": {"x": f"Label/{tag}{c}", "y": f"Label/{tag}"}},
+        "cat_missing_key": {"HED": {"x": f"Label/{tag}{c}"}},                      # SIDECAR_KEY_MISSING warning on y
+        "cat_bad_tag": {"HED": {"x": f"Badtag{tag}, Red", "y": "Blue"}},             # TAG_INVALID
+        "val": {"HED": f"Label/# , Label/{tag}"},                                    # value column
+        "meta": {"Description": f"no hed {tag}", "Levels": {"x": f"level {tag}", "y": "other"}},
+        "levels_hed": {"Description": f"misplaced {tag}",                            # HED inside Levels entries
+                       "Levels": {"x": {"Description": "r", "HED": f"Label/{tag}"}, "y": {"HED": "Blue"}}},
+        "deep_hed": {"Levels": {"x": {"More": {"HED": f"Label/{tag}"}}}},
+        "emptyobj": {},
+        "str": f"just text {tag}",
+        "list": [1, tag],
+        "null": None,
+        "num": 3,
+        "hed_assembled": {"HED_assembled": {"x": f"Label/{tag}"}},
+        "hed_list": {"HED": [f"Label/{tag}"]},
+        "hed_null": {"HED": None, "Description": tag},
+        "hed_emptydict": {"HED": {}, "Description": tag},
+        "hed_emptystr": {"HED": "", "Description": tag},
+    }[shape]
+
+
+HED_SHAPES = ["cat", "cat", "cat", "cat_missing_key", "cat_bad_tag", "val"]
+NOHED_SHAPES = ["meta", "levels_hed", "levels_hed", "deep_hed", "emptyobj", "str", "list", "null", "num"]
+ODD_SHAPES = ["hed_assembled", "hed_list", "hed_null", "hed_emptydict", "hed_emptystr"]
+FAMILY_SHAPES_QUICK = ["cat", "cat_bad_tag", "val", "meta", "levels_hed", "emptyobj", "null", "hed_emptydict"]
+FAMILY_SHAPES_ALL = ["cat", "cat_missing_key", "cat_bad_tag", "val"] + sorted(set(NOHED_SHAPES)) + ODD_SHAPES
+
+
 def jcontent(rng, tag):
-    """Small sidecar: a random subset of columns; every value names the file it comes from."""
+    """Small sidecar: a random subset of columns in a random mode.  Modes: mostly well placed HED (mixed), no
+    properly placed HED key anywhere (only metadata / misplaced HED / non-object entries), the empty object, a
+    top-level HED key."""
+    mode = rng.random()
+    if mode < 0.04:
+        return {"json": {}}
     d = {}
     cols = [c for c in COLS if rng.random() < 0.55] or [rng.choice(COLS)]
     rng.shuffle(cols)
     for c in cols:
-        x = rng.random()
-        if x < 0.6:
-            d[c] = {"HED": {"x": f"Label/{tag}{c}", "y": rng.choice(["Red", "Blue", f"Label/{tag}"])}}
-        elif x < 0.75:
-            d[c] = {"HED": {"x": f"Label/{tag}{c}"}}                       # y missing -> SIDECAR_KEY_MISSING warning
-        elif x < 0.85:
-            d[c] = {"HED": {"x": f"Badtag{tag}, Red", "y": "Blue"}}        # TAG_INVALID
-        elif x < 0.93:
-            d[c] = {"HED": f"Label/# , Label/{tag}"}                        # value column
+        if mode < 0.30:
+            shape = rng.choice(NOHED_SHAPES)
         else:
-            d[c] = {"Description": f"no hed {tag}"}
+            x = rng.random()
+            shape = rng.choice(HED_SHAPES) if x < 0.72 else rng.choice(NOHED_SHAPES) if x < 0.92 else rng.choice(ODD_SHAPES)
+        d[c] = shape_entry(shape, tag, c)
+    if 0.30 <= mode < 0.34:
+        d["HED"] = f"Label/{tag}"
     return {"json": d}
+
+
+def gen_shape_family(shapes):
+    """Every pair (shape of the root sidecar's entries, shape of the subject-level sidecar's entries): the deeper file
+    overrides BOTH columns of the shallower one; sub-01 sees the merge, sub-02 the root sidecar alone; plus the
+    empty sidecar object at either level."""
+    out = []
+    ev = {"text": "onset\tduration\ta\tb\n1\t0.5\tx\ty\n2\t0.5\ty\tn/a\n"}
+    for s1 in shapes + ["EMPTY"]:
+        for s2 in shapes + ["EMPTY"]:
+            tree = new_dir()
+            tree["files"]["dataset_description.json"] = {"json": DESC}
+            tree["files"]["task-rest_events.json"] = {"json": {} if s1 == "EMPTY" else
+                                                      {"a": shape_entry(s1, "R", "a"), "b": shape_entry(s1, "R", "b")}}
+            get_dir(tree, ["sub-01"])["files"]["sub-01_task-rest_events.json"] = {
+                "json": {} if s2 == "EMPTY" else {"b": shape_entry(s2, "S", "b"), "a": shape_entry(s2, "S", "a")}}
+            get_dir(tree, ["sub-01", "eeg"])["files"]["sub-01_task-rest_events.tsv"] = ev
+            get_dir(tree, ["sub-02", "eeg"])["files"]["sub-02_task-rest_events.tsv"] = ev
+            out.append(tree)
+    return out
 
 
 def tsv(rng):
@@ -643,11 +713,25 @@ def check_isspace(res):
         res.violation("isspace-table", {"codepoints": bad[:10]}, "Str.isspace differs from CPython", no_input=True)
 
 
+ROOT_NAMES = ["ds", "rawdata", "Derivatives", "bids root", "sub-01", "task-rest_events"]
+
+
+def gen_rootpath(rng, i):
+    """Components from the scratch directory down to the dataset root: the root's own name (an excluded name in
+    over a third of the cases; the first corpus trees get one each) and 0-2 components above it."""
+    if i < len(EXCLUDED_NAMES):
+        return [EXCLUDED_NAMES[i]]
+    x = rng.random()
+    name = rng.choice(EXCLUDED_NAMES) if x < 0.38 else rng.choice(ROOT_NAMES)
+    above = [rng.choice(EXCLUDED_NAMES + ROOT_NAMES) for _ in range(rng.choice([0, 0, 0, 1, 2]))]
+    return above + [name]
+
+
 def evaluate(trees, res, model_ok, rng, n_sub=2):
     """One pass over the implementation per tree: observe, and compute the statement's right-hand side with the
     specification's chains (computed beforehand, independently) and with the reported chains."""
     base = C.scratch_dir("hedverif-c16-")
-    stats = {"disagreements": 0, "finding_trees": 0, "in_scope": 0, "exn": 0}
+    stats = {"disagreements": 0, "finding_trees": 0, "in_scope": 0, "exn": 0, "roots": {}}
     try:
         excl = EXCLUDED_NAMES
         specs = [spec_dataset(t, excl) for t in trees]
@@ -655,7 +739,9 @@ def evaluate(trees, res, model_ok, rng, n_sub=2):
         for i, (t, sp) in enumerate(zip(trees, specs)):
             sc = spec_chains(sp)
             cases.append({"base": base, "idx": i, "tree": t, "cfw": rng.random() < 0.6, "sub": i < n_sub, "fixed": FIXED,
+                          "rootpath": gen_rootpath(rng, i), "trailing": rng.random() < 0.15,
                           "chains_spec": None if sc is None else (sc[1], sc[2])})
+            stats["roots"][cases[-1]["rootpath"][-1]] = stats["roots"].get(cases[-1]["rootpath"][-1], 0) + 1
         with Pool(min(int(C.JOBS), 16)) as pool:
             first = pool.map(impl_one, cases, chunksize=4)
         for r in first:
@@ -675,7 +761,7 @@ def evaluate(trees, res, model_ok, rng, n_sub=2):
             models = [decode_model(o, x[1], x[2]) for o, x in zip(outs, ins)]
         results = []
         for c, t, r1, sp, mo in zip(cases, trees, first, specs, models):
-            pub = {"tree": t, "cfw": c["cfw"]}
+            pub = {"tree": t, "cfw": c["cfw"], "rootpath": c["rootpath"], "trailing": c["trailing"]}
             if "exn" in r1:
                 stats["exn"] += 1
             probe = C.Result(PROP)
@@ -731,7 +817,7 @@ def nontrivial(t, excl=EXCLUDED_NAMES):
 
 
 LEGACY_F1 = {"property": "C16", "id": "C16-F1",
-             "what": "(repaired by the fix: commit; VERIF_C16_FIXED=0 on an unpatched tree) a data file gets the merged "
+             "what": "(repaired by fix commit be9bad3; VERIF_C16_FIXED=0 on a tree older than that commit) a data file gets the merged "
                      "contents of the deepest applicable sidecar's own chain instead of the merge of its own chain"}
 
 
@@ -741,13 +827,15 @@ def run(tier, seed, res, model_ok=True, proof_ok=True):
         res.known_ids = dict(getattr(res, "known_ids", {}))
         res.known_ids.setdefault("C16-F1", LEGACY_F1)
     check_isspace(res)
-    n = 240 if tier == "quick" else 1600
+    n = 160 if tier == "quick" else 1000
     if not proof_ok:
         n *= 3
     n = max(20, int(n * float(os.environ.get("VERIF_C16_SCALE", "1"))))   # self-test knob only
     trees = corpus()
     exh = gen_exhaustive(with_ses=(tier != "quick"))
     trees += exh
+    fam = gen_shape_family(FAMILY_SHAPES_QUICK if tier == "quick" else FAMILY_SHAPES_ALL)
+    trees += fam
     trees += [gen_tree(rng, malformed=False, finding_bias=rng.choice([0.0, 0.3, 0.6])) for _ in range(n)]
     trees += [gen_tree(rng, malformed=True, finding_bias=0.3) for _ in range(n // 4)]
     stats, results = evaluate(trees, res, model_ok, rng)
@@ -771,6 +859,10 @@ def run(tier, seed, res, model_ok=True, proof_ok=True):
         "exhaustive_family": f"{len(exh)} trees: one events file below root/sub-01{'/ses-01' if tier != 'quick' else ''}/eeg and, at each "
                              "level independently, no sidecar or one sidecar with any subset of the file's entities "
                              "(all placements enumerated)",
+        "shape_family": f"{len(fam)} trees: every pair of entry shapes (well placed HED, misplaced HED inside Levels, "
+                        "metadata only, empty/non-object entries, odd HED values, empty sidecar) for a root sidecar and a "
+                        "subject-level sidecar overriding both of its columns",
+        "root_directory_names": stats["roots"],
         "fixed_semantics": bool(FIXED),
         "exhaustive": False,
     }
@@ -789,11 +881,13 @@ def replay(payload):
         sp = spec_dataset(case["tree"], EXCLUDED_NAMES)
         sc = spec_chains(sp)
         c = {"base": base, "idx": 0, "tree": case["tree"], "cfw": case.get("cfw", True), "sub": True, "fixed": FIXED,
+             "rootpath": case.get("rootpath", ["ds"]), "trailing": case.get("trailing", False),
              "chains_spec": None if sc is None else (sc[1], sc[2])}
         r = impl_one(c)
         oracle(case, r, sp, res)
     finally:
         shutil.rmtree(base, ignore_errors=True)
+    print("root:", "/".join(case.get("rootpath", ["ds"])) + ("/" if case.get("trailing") else ""))
     print("files:", sorted("/".join(d + [n]) for d, n, c in all_files(case["tree"])))
     print("impl:", json.dumps({k: r.get(k) for k in ("exn", "data", "issues", "cli")}, default=str)[:3000])
     for v in res.violations:
